@@ -230,7 +230,16 @@ fn main() {
                 "word" => scenario_word(v[0] as u16, true),
                 "bits" => scenario_bits(v[0] as u32, v[1] as u8, v[2] as u8, true),
                 "stream1" | "stream2" => scenario_stream(if name == "stream1" { 1 } else { 2 }, [v[0] as u8, v[1] as u8, v[2] as u8, v[3] as u8], v[4] as u8, true),
-                "events" => scenario_events([v[0] as u8, v[1] as u8, v[2] as u8], [v[3] as u8, v[4] as u8, v[5] as u8], v[6] as u8, v[7] as u8, true),
+                "events" | "events_mods" | "events_decode" => scenario_events_aspect(
+                    [v[0] as u8, v[1] as u8, v[2] as u8],
+                    [v[3] as u8, v[4] as u8, v[5] as u8],
+                    v[6] as u8,
+                    v[7] as u8,
+                    if name == "events_mods" { 1 } else if name == "events_decode" { 2 } else { 3 },
+                    true,
+                ),
+                "resync1" | "resync2" => scenario_resync(if name == "resync1" { 1 } else { 2 }, [v[0] as u8, v[1] as u8, v[2] as u8, v[3] as u8], v[4] as u8, [v[5] as u8, v[6] as u8, v[7] as u8], true),
+                "pairing1" | "pairing2" => scenario_pairing(if name == "pairing1" { 1 } else { 2 }, v[0] as u8, v[1] as u8, true),
                 "keyboard1" | "keyboard2" => scenario_keyboard(if name == "keyboard1" { 1 } else { 2 }, v[0] as u16, v[1] as u8, [v[2] as u8, v[3] as u8], v[4] as u8, v[5] as u8, v[6] as u16, v[7] as u8, true),
                 "layout_total" => scenario_layout_total(v[0] as u8, v[1] as u8, v[2] as u8, v[3] as u16, v[4] != 0, true),
                 _ => panic!("unknown scenario"),
